@@ -441,7 +441,7 @@ func (r *Runner) cmd(ctx context.Context, cm syntax.Command) {
 				prev.Local = false
 
 				name, vr := r.assignVal(name, prev, as, "")
-				r.setVarWithIndex(prev, name, as.Index, vr)
+				r.setVarWithIndex(prev, name, as.Index, vr, as.Append && as.Index != nil)
 
 				if !tracingEnabled {
 					continue
